@@ -26,7 +26,8 @@ ASSUMPTIONS = ['expat is the arbiter of well-formedness',
                'skipped tests are not constrained (the statement is silent)']
 FLOORS = {'files_parsed': 300, 'testcases_matched': 1500,
           'hostile_messages': 300, 'event_elements_checked': 500,
-          'subtest_events': 50, 'doctest_cases': 50, 'hostile_names': 100}
+          'subtest_events': 50, 'doctest_cases': 50, 'hostile_names': 100,
+          'classes_spread_over_layers': 40}
 BATCH_TIMEOUT = 300
 
 KINDS = ['pass', 'pass', 'fail', 'error', 'setup_error', 'teardown_error',
@@ -169,6 +170,20 @@ def run_case(case):
         docfile_names = [os.path.basename(f) for f in dfiles]
         ndoc += 1
     xlayers = []
+    backends = False
+    if not submode and rng.random() < 0.25:
+        # one test class run against several backends: its test instances
+        # sit on different layers (and on none), all run in this process one
+        # layer after the other - one report file per class all the same
+        backends = True
+        xlayers = [{'name': 'B%d' % c, 'kind': 'class', 'bases': [],
+                    'hooks': {'setUp': 'ok', 'tearDown': 'ok'}}
+                   for c in range(rng.randint(2, 3))]
+        for node in nodes:
+            if node['t'] == 'class':
+                for t in node['tests']:
+                    t['ilayer'] = rng.choice(
+                        [x['name'] for x in xlayers] + ['UNIT'])
     if submode:
         xlayers = [{'name': 'L%d' % c, 'kind': 'class', 'bases': [],
                     'hooks': {'setUp': 'ok', 'tearDown': 'nie'
@@ -179,6 +194,8 @@ def run_case(case):
             'modules': [{'name': prefix + '_p.tests.test_x',
                          'file': prefix + '_p/tests/test_x.py',
                          'suite': {'t': 'suite', 'ch': nodes}}]}
+    if backends:
+        spec['modules'][0]['suite']['flat'] = True
     import_fault = rng.random() < 0.15
     if import_fault:
         msg, lab = gen_message(rng)
@@ -241,6 +258,10 @@ def run_case(case):
                 mech = 'xml-write-raised-' + type(w.raised).__name__
             V('run-aborted', mech, tb=tb[-900:])
             return {'viol': viol, 'evals': 1, 'counters': counters}
+        if backends:
+            C('classes_spread_over_layers', sum(
+                1 for n in nodes if n['t'] == 'class' and
+                len({t.get('ilayer') for t in n['tests']}) > 1))
         if submode:
             C('subprocess_written_reports')
             C('layer_subprocesses', len({
